@@ -1020,9 +1020,17 @@ impl XmlDocumentFragment {
 
 // -----------------------------------------------------------------------------------------------
 
-#[derive(Clone, PartialEq)]
+#[derive(Clone)]
 pub struct XmlDocument {
     document: info::XmlNode<info::XmlDocument>,
+}
+
+impl PartialEq for XmlDocument {
+    /// The same document, not a document with the same content: this is what the wrong-document checks of the
+    /// mutators compare.
+    fn eq(&self, other: &XmlDocument) -> bool {
+        Rc::ptr_eq(&self.document, &other.document)
+    }
 }
 
 impl Document for XmlDocument {
